@@ -6,6 +6,7 @@
 package main
 
 import (
+	"context"
 	"fmt"
 	"math"
 	"os"
@@ -31,7 +32,8 @@ import (
 
 // ---------------------------------------------------------------- inputs
 
-// Doc is a document body.  K: keyword-analysed text field; T, U: whitespace+lowercase text
+// Doc is a document body.  K, W: keyword-analysed text fields (W is indexed without term
+// vectors, which is what lets scorch use its "1-hit" postings encoding); T, U: whitespace+lowercase text
 // fields (each element a space-separated text); N: numeric (float64 bits); D: datetime (unix
 // ns); B: boolean.  XArr says whether the value is sent as an array (array positions [i]) or,
 // for a single element, as a plain value (no array positions).
@@ -42,6 +44,8 @@ type Doc struct {
 	TArr bool     `json:"t_arr,omitempty"`
 	U    []string `json:"u,omitempty"`
 	UArr bool     `json:"u_arr,omitempty"`
+	W    []string `json:"w,omitempty"` // keyword-analysed text field WITHOUT term vectors
+	WArr bool     `json:"w_arr,omitempty"`
 	N    []uint64 `json:"n,omitempty"`
 	D    []int64  `json:"d,omitempty"`
 	B    []bool   `json:"b,omitempty"`
@@ -57,7 +61,10 @@ type In struct {
 	Kind    string `json:"kind"`   // main | minshould | regexp | enum
 	Engine  string `json:"engine"` // scorch-mem | scorch-disk | upsidedown
 	Batches [][]Op `json:"batches"`
-	Q       *QN    `json:"q"`
+	// MergeAfter (scorch-disk only): force-merge the persisted segments into one after this many
+	// batches (merged segments are where scorch uses its 1-hit postings encoding); 0 = never
+	MergeAfter int `json:"merge_after,omitempty"`
+	Q          *QN `json:"q"`
 }
 
 const baseNS = int64(1577836800) * 1_000_000_000 // 2020-01-01T00:00:00Z
@@ -71,6 +78,7 @@ type world struct {
 	nDocs  int
 	engine string
 	docs   []*Doc // every document body generated for the history
+	uniq   bool   // give field w of every generated body a word no other body has
 	// steer: keep randomly generated trees out of the two signature classes (those shapes are
 	// generated as separate small cases, see gen)
 	steer bool
@@ -122,6 +130,21 @@ func (w *world) doc() *Doc {
 			d.U = append(d.U, w.text(3))
 		}
 		d.UArr = n > 1 || r.Chance(1, 3)
+	}
+	if r.Chance(2, 3) {
+		n := r.Range(1, 2)
+		for i := 0; i < n; i++ {
+			d.W = append(d.W, w.word())
+		}
+		d.WArr = n > 1 || r.Bool()
+	}
+	if w.uniq {
+		u := "q" + string(rune('a'+len(w.docs)%26)) + string(rune('a'+len(w.docs)/26%26))
+		d.W = append([]string{u}, d.W...)
+		if len(d.W) > 2 {
+			d.W = d.W[:2]
+		}
+		d.WArr = true
 	}
 	if r.Chance(2, 3) {
 		for i := r.Range(1, 2); i > 0; i-- {
@@ -194,6 +217,14 @@ func (w *world) history() [][]Op {
 	return batches
 }
 
+// mergeAfter: for on-disk scorch, force a merge after some batch in two cases out of three
+func (w *world) mergeAfter(batches [][]Op) int {
+	if w.engine != "scorch-disk" || w.r.Chance(1, 3) {
+		return 0
+	}
+	return w.r.Range(len(batches)/2, len(batches))
+}
+
 func newWorld(r *vrand.R, engine string, nDocs int) *world {
 	w := &world{r: r, engine: engine, nDocs: nDocs, steer: true}
 	pool := append([]string{}, wordPool...)
@@ -205,7 +236,7 @@ func newWorld(r *vrand.R, engine string, nDocs int) *world {
 
 // ---------------------------------------------------------------- query generation
 
-func (w *world) textField() string { return vrand.Pick(w.r, []string{"k", "t", "t", "u"}) }
+func (w *world) textField() string { return vrand.Pick(w.r, []string{"k", "t", "t", "u", "w", "w"}) }
 
 func (w *world) termFor(field string) string {
 	s := w.word()
@@ -392,7 +423,7 @@ func (w *world) leafOf(kind string) *QN {
 		return &QN{K: "term", F: f, T: w.termFor(f)}
 	case "match":
 		q := &QN{K: "match", F: f, And: r.Bool()}
-		if f == "k" {
+		if f == "k" || f == "w" {
 			q.T = w.termFor(f)
 		} else {
 			q.T = w.text(3)
@@ -654,6 +685,55 @@ func (w *world) treeP(d int, leafPct int) *QN {
 	return q
 }
 
+// termTree: conjunction / disjunction / boolean over plain term and bool-field leaves
+func (w *world) termTree(d int) *QN {
+	r := w.r
+	if d <= 0 {
+		switch r.Intn(7) {
+		case 0:
+			return &QN{K: "term", F: "k", T: w.termFor("k")}
+		case 1:
+			return &QN{K: "bool", F: "b", V: r.Bool()}
+		}
+		if len(w.docs) > 0 && r.Chance(3, 4) { // a word of some generated body
+			if ws := vrand.Pick(r, w.docs).W; len(ws) > 0 {
+				return &QN{K: "term", F: "w", T: vrand.Pick(r, ws)}
+			}
+		}
+		return &QN{K: "term", F: "w", T: w.word()}
+	}
+	kids := func(lo int) []*QN {
+		out := []*QN{}
+		for n := r.Range(lo, 3); n > 0; n-- {
+			if r.Chance(1, 4) {
+				out = append(out, w.termTree(d-1))
+			} else {
+				out = append(out, w.termTree(0))
+			}
+		}
+		return out
+	}
+	switch r.Intn(6) {
+	case 0, 1, 2:
+		return &QN{K: "conj", Kids: kids(2)}
+	case 3, 4:
+		q := &QN{K: "disj", Kids: kids(2)}
+		q.Min2 = vrand.Pick(r, []int{0, 0, 2, 2, 1, 4})
+		return q
+	}
+	q := &QN{K: "boolean", HasMust: true, Must: kids(1)}
+	if r.Chance(1, 2) {
+		q.HasShould, q.Should, q.Min2 = true, kids(1), 0
+	}
+	if r.Chance(1, 2) {
+		q.HasMustNot, q.MustNot = true, kids(1)
+	}
+	if r.Chance(1, 4) {
+		q.Filter = w.termTree(d - 1)
+	}
+	return q
+}
+
 func validate(q *QN) (ok bool) {
 	defer func() {
 		if recover() != nil {
@@ -690,7 +770,7 @@ func gen(f vh.Flags, r *vrand.R, emit func(In)) {
 			if q.size() > 45 || !validate(q) {
 				continue
 			}
-			emit(In{Kind: "main", Engine: engine, Batches: batches, Q: q})
+			emit(In{Kind: "main", Engine: engine, Batches: batches, MergeAfter: w.mergeAfter(batches), Q: q})
 			emitted++
 		}
 	}
@@ -708,8 +788,55 @@ func gen(f vh.Flags, r *vrand.R, emit func(In)) {
 				q = &QN{K: "boolean", HasMustNot: true, MustNot: []*QN{q}}
 			}
 			if validate(q) {
-				emit(In{Kind: "leaf", Engine: engine, Batches: batches, Q: q})
+				emit(In{Kind: "leaf", Engine: engine, Batches: batches, MergeAfter: w.mergeAfter(batches), Q: q})
 			}
+		}
+	}
+	// 1c. compounds over plain term / bool-field leaves (mostly on the field without term
+	// vectors): the shapes that score:"none" turns into per-segment bitmap algebra, including
+	// scorch's 1-hit postings
+	nUA := f.N(60, 3000)
+	for i := 0; i < nUA; i++ {
+		// half on disk (mostly force-merged: 1-hit postings only exist in merged segments)
+		engine := []string{"scorch-disk", "scorch-mem", "scorch-disk", "upsidedown", "scorch-disk", "scorch-mem"}[i%6]
+		w := newWorld(r.Fork(), engine, r.Range(4, 8))
+		w.vocab = append([]string{}, wordPool...) // many words, few documents: terms with a single posting
+		w.uniq = i%2 == 0
+		batches := w.history()
+		q := w.termTree(r.Range(1, 2))
+		if validate(q) {
+			emit(In{Kind: "termtree", Engine: engine, Batches: batches, MergeAfter: w.mergeAfter(batches), Q: q})
+		}
+	}
+	// 1d. terms with a single posting in a force-merged on-disk segment (scorch's 1-hit encoding)
+	nOH := f.N(24, 1200)
+	for i := 0; i < nOH; i++ {
+		w := newWorld(r.Fork(), "scorch-disk", r.Range(3, 6))
+		w.vocab = append([]string{}, wordPool...)
+		w.uniq = true
+		batches := w.history()
+		pick := func() *QN {
+			ws := vrand.Pick(w.r, w.docs).W
+			if w.r.Chance(3, 4) {
+				return &QN{K: "term", F: "w", T: ws[0]} // the unique word of that body
+			}
+			return &QN{K: "term", F: "w", T: vrand.Pick(w.r, ws)}
+		}
+		ks := []*QN{pick(), pick()}
+		if w.r.Chance(1, 3) {
+			ks = append(ks, pick())
+		}
+		var q *QN
+		switch w.r.Intn(4) {
+		case 0, 1:
+			q = &QN{K: "conj", Kids: ks}
+		case 2:
+			q = &QN{K: "disj", Kids: ks, Min2: vrand.Pick(w.r, []int{0, 2})}
+		default:
+			q = &QN{K: "boolean", HasMust: true, Must: ks[:1], HasMustNot: true, MustNot: ks[1:]}
+		}
+		if validate(q) {
+			emit(In{Kind: "onehit", Engine: "scorch-disk", Batches: batches, MergeAfter: len(batches), Q: q})
 		}
 	}
 	// 2. the signature classes, as separate small directed cases
@@ -946,6 +1073,10 @@ func buildMapping() (mapping.IndexMapping, error) {
 	uf := bleve.NewTextFieldMapping()
 	uf.Analyzer = "wslc"
 	dm.AddFieldMappingsAt("u", uf)
+	wf := bleve.NewTextFieldMapping()
+	wf.Analyzer = keyword.Name
+	wf.IncludeTermVectors = false
+	dm.AddFieldMappingsAt("w", wf)
 	dm.AddFieldMappingsAt("n", bleve.NewNumericFieldMapping())
 	dm.AddFieldMappingsAt("d", bleve.NewDateTimeFieldMapping())
 	dm.AddFieldMappingsAt("b", bleve.NewBooleanFieldMapping())
@@ -972,6 +1103,7 @@ func body(d *Doc) map[string]interface{} {
 	strs("k", d.K, d.KArr)
 	strs("t", d.T, d.TArr)
 	strs("u", d.U, d.UArr)
+	strs("w", d.W, d.WArr)
 	if len(d.N) > 0 {
 		vs := make([]interface{}, len(d.N))
 		for i, v := range d.N {
@@ -1022,6 +1154,7 @@ func docCoq(num int, d *Doc) cf.T {
 	add("k", d.K, d.KArr)
 	add("t", d.T, d.TArr)
 	add("u", d.U, d.UArr)
+	add("w", d.W, d.WArr)
 	if len(d.N) > 0 {
 		nums = append(nums, cf.Pair(cf.Str("n"), cf.ListOf(d.N, cf.U)))
 	}
@@ -1032,6 +1165,22 @@ func docCoq(num int, d *Doc) cf.T {
 		bools = append(bools, cf.Pair(cf.Str("b"), cf.ListOf(d.B, cf.Bool)))
 	}
 	return cf.App("mkDoc", cf.Int(num), cf.List(text), cf.List(nums), cf.List(dates), cf.List(bools))
+}
+
+func forceMerge(idx bleve.Index) {
+	adv, err := idx.Advanced()
+	if err != nil {
+		panic(err)
+	}
+	sc, ok := adv.(*scorch.Scorch)
+	if !ok {
+		panic("not a scorch index")
+	}
+	ctx, cancel := context.WithTimeout(context.Background(), 60*time.Second)
+	defer cancel()
+	if err := sc.ForceMerge(ctx, nil); err != nil {
+		panic(err)
+	}
 }
 
 func exec(in In) vh.Result {
@@ -1069,7 +1218,10 @@ func run(in In) vh.Result {
 	defer idx.Close()
 
 	live := map[int]*Doc{}
-	for _, ops := range in.Batches {
+	for bi, ops := range in.Batches {
+		if in.Engine == "scorch-disk" && in.MergeAfter > 0 && bi == in.MergeAfter {
+			forceMerge(idx)
+		}
 		b := idx.NewBatch()
 		for _, op := range ops {
 			if op.Del {
@@ -1085,6 +1237,9 @@ func run(in In) vh.Result {
 		if err := idx.Batch(b); err != nil {
 			panic(err)
 		}
+	}
+	if in.Engine == "scorch-disk" && in.MergeAfter >= len(in.Batches) {
+		forceMerge(idx)
 	}
 	var nums []int
 	for n := range live {
@@ -1141,6 +1296,9 @@ func run(in In) vh.Result {
 			}
 			segs = fmt.Sprintf("segments:%d%s", n, map[bool]string{true: "+", false: ""}[n == 4])
 		}
+	}
+	if in.Engine == "scorch-disk" && in.MergeAfter > 0 {
+		segs += "(force-merged)"
 	}
 	hist := []string{"kind:" + in.Kind, "engine:" + in.Engine, "root:" + in.Q.K, fmt.Sprintf("depth:%d", in.Q.depth())}
 	if segs != "" {
